@@ -170,6 +170,11 @@ func normalizePanic(msg string) string {
 func runRecover(f func() CaseOut) (out CaseOut) {
 	defer func() {
 		if r := recover(); r != nil {
+			if strings.Contains(fmt.Sprint(r), "main bubble goroutine has exited but blocked goroutines remain") {
+				// goroutines of the system under test that never end (counted; the leak itself is C17's subject)
+				out.count("bubbles_left_with_blocked_goroutines", 1)
+				return
+			}
 			st := string(debug.Stack())
 			out.Viol = append(out.Viol, Violation{Key: panicKey(fmt.Sprint(r), st), Msg: fmt.Sprintf("panic in calling goroutine: %v\n%s", r, trimStack(st, 30))})
 		}
